@@ -8,11 +8,11 @@ CHECK = {
     "gen": [{"pkg": "extract_c07", "out": "lean/ClusterVerif/Gen/C07.lean"}],
     "suites": [
         suite("auth", "c07", 160, 1600, stdin=True, args=["-suite", "auth"], timeout={"quick": 600, "thorough": 1800}),
-        suite("rep", "c07", 8, 160, stdin=True, args=["-suite", "rep"], timeout={"quick": 600, "thorough": 2400}),
+        suite("rep", "c07", 10, 160, stdin=True, args=["-suite", "rep"], timeout={"quick": 600, "thorough": 2400}),
     ],
     "lean_sources": ["ClusterVerif/Model/C07.lean", "ClusterVerif/Model/C07Sys.lean", "ClusterVerif/Spec/C07.lean", "ClusterVerif/Gen/C07.lean",
                      "ClusterVerif/Lemmas/C07.lean", "Driver/C07.lean"],
-    "rule": "auth: one configuration = (Config.Tracing off/on) x (policy table shipped/follower/custom overrides) x (raft | crdt trusted_peers list with '*', repeats, "
+    "rule": "auth: one configuration = (Config.Tracing off/on) x (policy table shipped/follower/custom overrides) x (raft | crdt trusted_peers from one file or, 2 in 5, from a sequence of Default/LoadJSON/ApplyEnvVars sources; lists with '*', repeats, "
             "id-only peers) x (0-5 Trust/Distrust calls); per configuration IsTrustedPeer of the real consensus for 7 peers, and for one "
             "configuration in four every caller (self + 3 remote hosts) calls every registered endpoint and 5 unregistered names over real "
             "libp2p streams (plus a hand-rolled client every 7th call). rep: observer trust configuration x calls x 1-4 non-conflicting "
